@@ -432,9 +432,17 @@ _public_ int m_ctx_deregister(void) {
     M_CTX_ASSERT();
     M_PARAM_ASSERT(c->state == M_CTX_IDLE);
 
+    /*
+     * Modules can only be deregistered while their context is still reachable from this thread.
+     * Meanwhile, no callback can register new modules or deregister/loop the context again.
+     */
+    c->state = M_CTX_ZOMBIE;
+    c->finalized = true;
+    /* Iteration is interrupted whenever a callback deregisters another module: restart it */
+    while (m_iterate(c->modules, ctx_destroy_mods, NULL) == -EACCES);
+
     int ret = pthread_setspecific(key, NULL);
     if (ret == 0) {
-        m_iterate(c->modules, ctx_destroy_mods, NULL);
         m_mem_unref(c);
     }
     return ret;
@@ -468,6 +476,7 @@ _public_ int m_ctx_fd(void) {
 
 _public_ int m_ctx_dispatch(void) {
     M_CTX_ASSERT();
+    M_PARAM_ASSERT(c->state != M_CTX_ZOMBIE);
 
     if (c->state == M_CTX_IDLE) {
         /* Ok, start now */
